@@ -14,7 +14,7 @@ from mypy.literals import literal_hash
 from mypy.maptype import map_instance_to_supertype
 from mypy.meet import narrow_declared_type
 from mypy.messages import MessageBuilder
-from mypy.nodes import ARG_POS, Expression, NameExpr, TempNode, TypeAlias, Var
+from mypy.nodes import ARG_POS, Expression, NameExpr, SymbolNode, TempNode, TypeAlias, Var
 from mypy.options import Options
 from mypy.patterns import (
     AsPattern,
@@ -175,7 +175,7 @@ class PatternChecker(PatternVisitor[PatternType]):
         #
         # Check the capture types
         #
-        capture_types: dict[Var, list[tuple[Expression, Type]]] = defaultdict(list)
+        capture_types: dict[SymbolNode, list[tuple[Expression, Type]]] = defaultdict(list)
         # Collect captures from the first subpattern
         for expr, typ in pattern_types[0].captures.items():
             node = get_var(expr)
@@ -859,14 +859,16 @@ def get_match_arg_names(typ: TupleType) -> list[str | None]:
     return args
 
 
-def get_var(expr: Expression) -> Var:
+def get_var(expr: Expression) -> SymbolNode:
     """
     Warning: this in only true for expressions captured by a match statement.
     Don't call it from anywhere else
     """
     assert isinstance(expr, NameExpr), expr
     node = expr.node
-    assert isinstance(node, Var), node
+    # Normally a Var; a capture that rebinds a class or a function (reported as an
+    # error elsewhere) refers to that definition.
+    assert isinstance(node, SymbolNode), node
     return node
 
 
